@@ -81,5 +81,12 @@ TReload ==
          /\ Ev.evald = <<>> /\ ~Ev.raised /\ Ev.auto = auto')
   /\ Obs /\ Step
 
-TNext == TReload \/ TSetSeed \/ TRebuild \/ TAssign \/ TSetAuto \/ TUpdateAll \/ TUpdateTargets \/ TSave \/ TRestore
+\* low-level node API
+TFlagOutdated == IsEvent("flag_outdated") /\ FlagOutdated(Ev.n) /\ Obs /\ Step
+TNodeUpdate ==
+  /\ IsEvent("node_update")
+  /\ Chk("driver_updates_single_nodes_only_when_their_inputs_are_up_to_date", InputsUpToDate(Ev.n))
+  /\ NodeUpdate(Ev.n) /\ Obs /\ Step
+
+TNext == TFlagOutdated \/ TNodeUpdate \/ TReload \/ TSetSeed \/ TRebuild \/ TAssign \/ TSetAuto \/ TUpdateAll \/ TUpdateTargets \/ TSave \/ TRestore
 =============================================================================
